@@ -332,6 +332,113 @@ impl Explorer<'_> {
     }
 }
 
+/// (is_group, id) -> level, for `members()` (individuals) and `groups()` (transitive sub-groups)
+type TView = BTreeMap<(bool, char), u8>;
+
+fn trans_view(y: &State, g: char) -> TView {
+    let mut v: TView = y.members(g).into_iter().map(|(m, a)| ((false, m), access_proj(&a).1)).collect();
+    v.extend(y.groups(g).into_iter().map(|(m, a)| ((true, m), access_proj(&a).1)));
+    v
+}
+
+const ADMIN: char = 'm';
+
+/// One nesting exported by MC_GroupNest: the groups are created by an administrator `m` (manager
+/// of every group, not part of the model: it is a direct Manage member everywhere and therefore
+/// Manage in every answer), every edge is one Add operation. The history is built (a) as a chain
+/// in a random edge order and (b) with all adds concurrent; each variant is delivered to
+/// `replicas` fresh replicas in random causal orders; every group is queried 5 times per replica.
+fn replay_nesting(b: &Value, rng: &mut Rng, replicas: usize, out: &mut Outcome) {
+    out.eval();
+    let groups: Vec<char> = b["groups"].as_array().expect("groups").iter().map(ch).collect();
+    let edges: Vec<(char, char, u64, bool)> = b["edges"]
+        .as_array()
+        .map(|a| a.iter().map(|e| (ch(&e["g"]), ch(&e["x"]), e["l"].as_u64().unwrap(), e["grp"].as_bool().unwrap())).collect())
+        .unwrap_or_default();
+    let mut expected: HashMap<char, TView> = HashMap::new();
+    for g in &groups {
+        let mut v: TView = b["trans"][g.to_string().as_str()]
+            .as_array()
+            .map(|a| a.iter().map(|e| ((e["grp"].as_bool().unwrap(), ch(&e["m"])), e["l"].as_u64().unwrap() as u8)).collect())
+            .unwrap_or_default();
+        v.insert((false, ADMIN), 3);
+        expected.insert(*g, v);
+    }
+    if b["diamond"] == json!(true) {
+        out.mark_distinct(b["edges"].to_string());
+        out.count("nestings_with_unequal_diamond");
+    }
+    for variant in ["chain", "concurrent"] {
+        // --- the history
+        let mut ops: Vec<VOp> = Vec::new();
+        for g in &groups {
+            let deps = ops.last().map(|o: &VOp| vec![o.id]).unwrap_or_default();
+            ops.push(VOp { id: ops.len() as u32 + 1, author: ADMIN, deps, group: *g,
+                           action: GroupAction::Create { initial_members: vec![(GroupMember::Individual(ADMIN), access(-1, 3))] } });
+        }
+        let root = ops.last().unwrap().id;
+        let mut order: Vec<usize> = (0..edges.len()).collect();
+        rng.shuffle(&mut order);
+        for ei in order {
+            let (g, x, l, grp) = edges[ei];
+            let member = if grp { GroupMember::Group(x) } else { GroupMember::Individual(x) };
+            let deps = if variant == "chain" { vec![ops.last().unwrap().id] } else { vec![root] };
+            ops.push(VOp { id: ops.len() as u32 + 1, author: ADMIN, deps, group: g, action: GroupAction::Add { member, access: access(-1, l) } });
+        }
+        // --- fresh replicas, random causal orders
+        let mut first: Option<HashMap<char, TView>> = None;
+        for rep in 0..replicas {
+            let mut y = Crdt::init();
+            let mut done: BTreeSet<u32> = BTreeSet::new();
+            let mut delivered = Vec::new();
+            while done.len() < ops.len() {
+                let ready: Vec<usize> = (0..ops.len()).filter(|j| !done.contains(&ops[*j].id) && ops[*j].deps.iter().all(|d| done.contains(d))).collect();
+                let op = &ops[*rng.pick(&ready)];
+                match process(&y, op) {
+                    Ok(Ok(next)) => y = next,
+                    Ok(Err(e)) => { viol(out, "C31", "nesting-operation-refused", format!("{variant}: op {op:?} refused after {delivered:?}: {e}"), b.clone()); return; }
+                    Err(p) => { viol(out, "C33", "process-panics", format!("{variant}: op {op:?}: {p}"), b.clone()); return; }
+                }
+                done.insert(op.id);
+                delivered.push(op.id);
+            }
+            out.count("nesting_replicas");
+            let mut answers: HashMap<char, TView> = HashMap::new();
+            for g in &groups {
+                for q in 0..5 {
+                    let got = match catch(|| trans_view(&y, *g)) {
+                        Ok(v) => v,
+                        Err(p) => { viol(out, "C31", "query-panics", p, b.clone()); return; }
+                    };
+                    if let Some(prev) = answers.get(g) {
+                        if prev != &got {
+                            viol(out, "C31", "nested-query-unstable", format!("{variant}, replica {rep} (order {delivered:?}): members/groups of {g} answered {prev:?}, then (query {q}) {got:?}"), b.clone());
+                            return;
+                        }
+                    } else {
+                        answers.insert(*g, got);
+                    }
+                }
+                let got = &answers[g];
+                if got != &expected[g] {
+                    viol(out, "C31", "nested-members-differ-from-spec",
+                         format!("{variant}, replica {rep} (order {delivered:?}): members/groups of {g} = {got:?}, specification (max over paths of min along the path) says {:?}", expected[g]), b.clone());
+                    return;
+                }
+            }
+            match &first {
+                None => first = Some(answers),
+                Some(f) if f != &answers => {
+                    viol(out, "C31", "nested-replicas-diverge", format!("{variant}: replica 0 answers {f:?}, replica {rep} answers {answers:?}"), b.clone());
+                    return;
+                }
+                _ => {}
+            }
+        }
+    }
+    out.sample(b.clone());
+}
+
 fn replay(args: &Args) {
     let cases = read_ndjson(args.input.as_ref().expect("--in"));
     let mut out = Outcome::new(
@@ -346,6 +453,13 @@ fn replay(args: &Args) {
     let focus_c31 = args.extra.get("focus").is_some_and(|f| f == "c31");
     // accepted-attempt tables by canonical history key (for views smaller than the whole history)
     let mut tables: HashMap<String, BTreeSet<(char, String, char, i64, u64)>> = HashMap::new();
+    let mut recreate_reported = false;
+    // nesting cases (spec/GroupAuth/GroupNest.tla) are a different kind of behaviour
+    let (nestings, cases): (Vec<Value>, Vec<Value>) = cases.into_iter().partition(|b| b["kind"] == "nesting");
+    let mut nest_rng = Rng::new(args.seed);
+    for b in &nestings {
+        replay_nesting(b, &mut nest_rng, args.extra_usize("replicas", 8), &mut out);
+    }
     let parsed: Vec<History> = cases.iter().map(parse_history).collect();
     for h in &parsed {
         if h.ops.iter().all(|(_, ok)| *ok) {
@@ -353,7 +467,6 @@ fn replay(args: &Args) {
             tables.insert(history_key(&h.ops, &d), h.accepts.clone());
         }
     }
-    let mut recreate_reported = false;
     for (n, (b, h)) in cases.iter().zip(parsed.iter()).enumerate() {
         out.eval();
         let accepted: Vec<u32> = h.ops.iter().filter(|(_, ok)| *ok).map(|(o, _)| o.id).collect();
@@ -695,7 +808,38 @@ fn wild_run(run: usize, rng: &mut Rng, orders: usize, out: &mut Outcome) {
             Err(p) => { viol(out, "C33", "process-panics", p, case(&ops)); return; }
         }
     }
-    let target = rng.range(8, 22) as usize;
+    // nested runs start (3 times out of 4) from a diamond whose two paths carry different
+    // effective access: G --e1--> Q directly and G --e2--> P --e3--> Q with e1 != min(e2, e3),
+    // plus an individual that is a member of Q only; published on one replica or concurrently
+    if nested && individuals.len() >= 4 && rng.chance(3, 4) {
+        let (e1, e2, e3) = loop {
+            let t = (rng.below(3), rng.below(3), rng.below(3));
+            if t.0 != t.1.min(t.2) { break t; }
+        };
+        let (c1, _) = random_access(rng, conds);
+        let leaf = individuals[3];
+        let seeds: Vec<(char, char, GroupAction<char, Cond>)> = vec![
+            (individuals[0], G, GroupAction::Add { member: GroupMember::Group('Q'), access: access(c1, e1) }),
+            (individuals[0], G, GroupAction::Add { member: GroupMember::Group('P'), access: access(-1, e2) }),
+            (individuals[1], 'P', GroupAction::Add { member: GroupMember::Group('Q'), access: access(-1, e3) }),
+            (individuals[2], 'Q', GroupAction::Add { member: GroupMember::Individual(leaf), access: access(-1, rng.range(1, 3)) }),
+        ];
+        let concurrent = rng.chance(1, 2);
+        let base = gens[0].0.clone();
+        let mut base_deps = base.heads();
+        base_deps.sort();
+        for (author, group, action) in seeds {
+            let deps = if concurrent { base_deps.clone() } else { let mut d = gens[0].0.heads(); d.sort(); d };
+            let op = VOp { id: ops.len() as u32 + 1, author, deps, group, action };
+            match process(&gens[0].0, &op) {
+                Ok(Ok(y)) => { gens[0].0 = y; gens[0].1.insert(op.id); ops.push(op); }
+                Ok(Err(_)) => { out.count("wild_attempt_refused"); }
+                Err(p) => { viol(out, "C33", "process-panics", format!("{op:?}: {p}"), case(&ops)); return; }
+            }
+        }
+        out.count("wild_diamond_seeds");
+    }
+    let target = ops.len() + rng.range(4, 16) as usize;
     let mut guard = 0;
     while ops.len() < target && guard < 400 {
         guard += 1;
